@@ -186,7 +186,7 @@ func caseC13(r *rand.Rand, f *os.File, label string, maxTips int, cli *cliEnv) {
 		convertEvent(f, label, "tree-nexus", utils.FORMAT_NEXUS, ts[0].Nexus(), orig[:1], pal, true)
 		return
 	}
-	switch r.Intn(4) {
+	switch r.Intn(5) {
 	case 0: // Newick stream with blank lines, trees spanning lines
 		var sb strings.Builder
 		for _, t := range ts {
@@ -213,6 +213,47 @@ func caseC13(r *rand.Rand, f *os.File, label string, maxTips int, cli *cliEnv) {
 			chain = "nexus-translate"
 		}
 		convertEvent(f, label, chain, utils.FORMAT_NEXUS, text, orig, pal, true)
+	case 3:
+		// Nextstrain (reader only): one tree, every branch with a length given as the difference of two cumulative
+		// divergences (dyadic values, so that the differences are exact), no supports; the document is written by the harness
+		palNS := &palette{vals: []float64{0.5, 1, 0.25, 2.75, 12.5, 3, 100, 0, 0.0625}}
+		d := convDOn(r, palNS, names, 0)
+		for i := range d {
+			d[i].Sup, d[i].Pv = -1, -1
+			if i > 0 && d[i].Len < 0 {
+				d[i].Len = 1 + r.Intn(len(palNS.vals))
+			}
+		}
+		base := []float64{0, 0, 1.5, 40}[r.Intn(4)] // divergence of the root (only differences matter)
+		var js func(i int, div float64) string
+		js = func(i int, div float64) string {
+			n := d[i-1]
+			my := div
+			if i > 1 {
+				my = div + palNS.val(n.Len)
+			}
+			var sb strings.Builder
+			sb.WriteString("{")
+			if n.Nm != "" {
+				b, _ := json.Marshal(n.Nm)
+				sb.WriteString(`"name":` + string(b) + ",")
+			}
+			sb.WriteString(`"node_attrs":{"div":` + fmtF(my) + "}")
+			if len(n.Ch) > 0 {
+				sb.WriteString(`,"children":[`)
+				for k, c := range n.Ch {
+					if k > 0 {
+						sb.WriteString(",")
+					}
+					sb.WriteString(js(c, my))
+				}
+				sb.WriteString("]")
+			}
+			sb.WriteString("}")
+			return sb.String()
+		}
+		text := `{"version":"v2","meta":{"title":"x"},"tree":` + js(1, base) + "}\n"
+		convertEvent(f, label, "nextstrain", utils.FORMAT_NEXTSTRAIN, text, [][]dNode{d}, palNS, false)
 	default:
 		text, err := phyloxml.WritePhyloXML(feed(ts))
 		if err != nil {
